@@ -852,6 +852,37 @@ impl Prop for C16 {
                 v.push(format!("hdr {}", hex(&mutate(rng, &ref_rec(&rs[0])))));
             }
         }
+        // ---- attribute blocks of every length class the two-octet Attribute Length field can announce, far above
+        //      the 4096 octets of a BGP message: at 4095 / 4096 / 4097, tens of thousands of octets, 65534 / 65535;
+        //      random octets, and real attribute sections (C01's reference encoder: an AS_PATH of hundreds of
+        //      segments, community attributes of thousands of records, MP attributes above 4096 octets).
+        //      (At the end of the stream, so that the requests before it are what they were.)
+        {
+            let attr_section = |rng: &mut Rng, kind: usize, target: usize| -> Vec<u8> {
+                let (cfg, c) = crate::props::c01::gen_big(rng, kind, target, false);
+                let m = crate::props::c01::ref_encode(&cfg, &c);
+                let wl = u16::from_be_bytes([m[19], m[20]]) as usize;
+                let ao = 21 + wl;
+                let al = u16::from_be_bytes([m[ao], m[ao + 1]]) as usize;
+                m[ao + 2..ao + 2 + al].to_vec()
+            };
+            let plans: [Vec<Vec<usize>>; 3] = [vec![vec![4095, 4096, 4097], vec![0, 255, 256]], vec![vec![65535], vec![65534, 0, 1]], vec![vec![40000, 65535], vec![]]];
+            for (i, plan) in plans.iter().enumerate() {
+                let mut f = gen_file(rng, 0);
+                let np = f.peers.len();
+                f.tables.truncate(1);
+                for (j, lens) in plan.iter().enumerate() {
+                    let (plen, pbytes) = gen_prefix(rng, j % 2 == 1);
+                    let mut entries: Vec<EntryS> = lens.iter().map(|n| EntryS { idx: rng.below(np as u64) as u16, orig: rng.u32(), attrs: rng.bytes(*n) }).collect();
+                    // a real attribute section next to the random blocks
+                    let a = attr_section(rng, [3usize, 2, 4][i], [9000usize, 30000, 65000][i]);
+                    if a.len() <= 65535 { entries.push(EntryS { idx: 0, orig: 1, attrs: a }); }
+                    f.tables.push(TableS { ts: rng.u32(), seq: 100 + j as u32, v6: j % 2 == 1, plen, pbytes, entries });
+                }
+                push_file_ops(&mut v, &f, 1);
+                for t in f.tables.iter().skip(1) { v.push(format!("single {} {}", b01(t.v6), hex(&ref_table(t)[12..]))); }
+            }
+        }
         v
     }
 
